@@ -15,21 +15,29 @@ from vlib.workmeter import selfcheck as meter_selfcheck
 
 ID = "C13"
 LEVEL = "fault_enumeration"
-RULE = ("Finite fault space over 6 harness-built feature-covering seed documents (simple fonts with Differences/ToUnicode/"
-        "FontFile/Type3; composite fonts with W/DW/W2/ToUnicode/FontFile2/predefined CMap; forms, images with predictor, "
-        "inline image, colour spaces, ExtGState, marked content; filter chains with predictors and indirect Length; page "
-        "labels/outlines/dests and a multi-level page tree; the same in object streams + xref stream) and the repository "
-        "samples simple1-5: every dictionary value and array element x 16 replacement values (null, bool, -1, 0, 2^31, "
-        "real, string, name, empty/non-empty array, empty/non-empty dict, self-reference, missing reference, reference "
-        "into the page tree, reference to an object that refers to the containing object = cycle of length >= 2), every "
-        "key removal, every stream payload x {truncate at 8 points, flip one bit at 8 points, garbage, empty}, every one "
-        "of the first 24 LZW codes x 10 boundary code values, truncation of the file at every byte (every 64th for the two large samples).  Each damaged "
-        "file goes through extract_text, extract_pages and extract_text_to_fp(xml).  Oracle: return or an instance of "
-        "PSException (AssertionError tolerated and counted, as the repository's fuzz harnesses do); anything else is a "
-        "violation bucketed by (exception type, innermost pdfminer frame); work measured in sys.monitoring PY_START+JUMP "
-        "events must stay below 50x the undamaged seed + 2e6.  Quick = seeded sample of the space, thorough = all of it. "
-        "Non-trivial = the object holding the faulted site was actually fetched by getobj (truncations: any object "
-        "fetched); distinct by (seed, site, kind).")
+RULE = ("Finite fault space over 9 harness-built feature-covering seed documents (simple fonts with Differences/ToUnicode/"
+        "FontFile/Type3; composite fonts with W/DW/W2/ToUnicode/FontFile2 (cmap formats 4 and 2)/predefined CMap; forms, "
+        "images with predictor, inline image, colour spaces, ExtGState, marked content; filter chains with predictors, "
+        "indirect Length, a CCITT content stream; page labels/outlines/dests and a multi-level page tree; the simple seed "
+        "again in object streams + xref stream; three encrypted seeds RC4 / AESV2 / AESV3 whose /Encrypt dictionary is an "
+        "ordinary object) and the repository samples simple1-5.  Fault kinds: every dictionary value and array element x "
+        "27 replacement values (null, bool, -1, 0, 2^31, real, string, name, arrays, dicts, self-reference, missing "
+        "reference, page-tree reference, referrer reference = cycle of length >= 2, +-10^30, real 1e60, empty string, "
+        "[missing ref], [null], reference chains that enter a cycle, 2^63-1, 2^63-300, a 14-level fan-out of references); "
+        "every key removal; the same values as the whole value of every object and for 9 trailer / xref-stream entries "
+        "(plus /Prev = own offset); every stream payload x {truncate at 8 points, flip one bit at 8 points, garbage, "
+        "empty}; LZW code faults; CMap range / target faults; every byte of an embedded font program <- 0xFF; every "
+        "numeric operand of a content stream x 9 replacements; 22 insertions into an inline image dictionary; payload "
+        "cuts and /N /First faults of the writer's object streams; generation / offset fields of classic xref entries; "
+        "truncation of the file at every byte (every 64th for the two large samples).  Each damaged file goes through "
+        "extract_text, extract_pages, extract_text_to_fp(xml) and, for seeds with images, extract_text_to_fp(output_dir)."
+        "  Oracle: return or an instance of PSException (AssertionError tolerated and counted, as the repository's fuzz "
+        "harnesses do); anything else is a violation bucketed by (exception type, innermost pdfminer frame); work "
+        "measured in sys.monitoring PY_START+JUMP events must stay below 50x the undamaged seed + 2e6.  Quick = the "
+        "cycle / chain / payload / trailer / object-stream / operand(simple) / font-program(cid) classes completely plus a "
+        "seeded sample of the rest, thorough = all of it plus atheris campaigns.  Non-trivial = the object holding the "
+        "faulted site was actually fetched by getobj (truncations: any object fetched; trailer, object-stream and xref "
+        "faults always); distinct by (seed, site, kind).")
 ASSUMPTIONS = ["image export (output_dir) is exercised for the seeds that contain images; the ImportError that asks for the optional Pillow package is tolerated like AssertionError",
                "work inside C extensions (zlib, re, AES) is not counted; no fault kind enlarges a payload",
                "AssertionError is tolerated because fuzzing/*.py in the repository states that contract"]
